@@ -101,6 +101,19 @@ def _run_psd(case, ctx):
     # half of the cases share a few temperatures between different adsorbate property sets (the same Kelvin model and
     # temperature recur with another adsorbate within one process)
     T = round(r.uniform(60, 320), 3) if r.random() < 0.5 else r.choice([77.355, 87.3, 298.15])
+    if case["seed"] % 5 == 0:
+        # a vapour with a thermodynamic backend *and* tabulated values that differ from it (a user's 'hexane' with a handbook
+        # molar mass, density and surface tension): the analysis takes all three from one source - the backend, as every other
+        # conversion of that isotherm does
+        from pgverif.ref import units as RU
+        bk = r.choice(["n-Hexane", "Ethanol", "Benzene"])
+        T = r.choice([273.15, 298.15, 313.15])
+        fl = RU.fluid(bk)
+        ads_name = "verif-c16-bk-%s" % bk
+        if not any(a.name == ads_name for a in pygaps.ADSORBATE_LIST):
+            pygaps.Adsorbate(ads_name, store=True, backend_name=bk, molar_mass=round(fl.molar_mass() * 1.07, 3), liquid_density=round(fl.rho_liq(298.15) * 0.93, 4), surface_tension=round(fl._p("I", 298.15, 0) * 1000 * 1.2, 3))
+        M, rho, gamma = fl.molar_mass(), fl.rho_liq(T), fl._p("I", T, 0) * 1000
+        ctx.count("adsorbates", "backend-with-differing-tabulated-values/" + bk)
     n = r.choice([4, 5, 8, 20, 60]) if r.random() < 0.5 else r.randint(4, 80)
     p = numpy.array(gen.increasing(r, n, 0.02, 0.998, log=r.random() < 0.3))
     shape = case["shape"]
@@ -145,7 +158,12 @@ def _run_psd(case, ctx):
         pp, vv, bb = list(p[::-1]), list(v[::-1]), [True] * n
     # every other isotherm is recorded in degrees Celsius (the analysis works in kelvin whatever the stored unit)
     tunit = "°C" if case["seed"] % 2 else "K"
-    iso = pygaps.PointIsotherm(pressure=pp, loading=vv, branch=bb, material="verif-c16", adsorbate=ads_name, temperature=T if tunit == "K" else T - 273.15, pressure_mode="relative", pressure_unit=None,
+    # ... and every third one in percent of the saturation pressure
+    pmode = "relative%" if case["seed"] % 3 == 1 else "relative"
+    if pmode == "relative%":
+        pp = [x * 100.0 for x in pp]
+        ctx.count("stored_pressure_mode", "relative%")
+    iso = pygaps.PointIsotherm(pressure=pp, loading=vv, branch=bb, material="verif-c16", adsorbate=ads_name, temperature=T if tunit == "K" else T - 273.15, pressure_mode=pmode, pressure_unit=None,
                                loading_basis="volume_liquid", loading_unit="cm3", material_basis="mass", material_unit="g", temperature_unit=tunit)
     kw = dict(psd_model=method, pore_geometry=geom, branch=branch, thickness_model=tname, kelvin_model=kname, p_limits=lims)
     if meniscus:
